@@ -45,7 +45,19 @@ structure SeedPoint where
   line : Nat
   func : String
   kind : SeedKind
+  /-- a re-seed comes first AND its argument cannot be None (`np.random.seed(None)` re-seeds from OS entropy) -/
   seeded : Bool
+  arg : String := ""
+  argMayBeNone : Bool := false
+  deriving DecidableEq, Repr
+
+/-- the test under which `gen_seed_timeseries` re-uses the daily seed series saved in the generator folder -/
+structure SeedReuse where
+  file : String
+  line : Nat
+  checksLength : Bool
+  checksStart : Bool
+  checksEnd : Bool
   deriving DecidableEq, Repr
 
 structure Mutation where
@@ -90,7 +102,15 @@ structure Tables where
   simulateDeepCopies : Bool
   simulateUsesOnlyCopy : Bool
   nondetSites : List NondetSite
+  seedSeriesReuse : SeedReuse
   deriving Repr
+
+/-- table obligation: a saved daily seed series is re-used only if it has one entry per simulated day and
+contains the first and the last simulated day -/
+def Tables.seedSeriesChecked (T : Tables) : Prop :=
+  T.seedSeriesReuse.checksLength = true ∧ T.seedSeriesReuse.checksStart = true ∧ T.seedSeriesReuse.checksEnd = true
+
+instance (T : Tables) : Decidable T.seedSeriesChecked := by unfold Tables.seedSeriesChecked; infer_instance
 
 /-- every task works on a private deep copy of the infrastructure object it is handed: `simulate()` deep-copies
 its argument and uses only the copy, and no class overrides deep-copy semantics -/
